@@ -45,13 +45,24 @@ theorem select_in_candidates (cum : List α) (u : α) (close : Bool) (i : Nat)
     have := firstLe_lt u cum 0 i hj
     omega
   · split at h
-    · rename_i hc
-      cases h
-      simp only [Bool.and_eq_true, decide_eq_true_eq] at hc
-      omega
+    · split at h
+      · rename_i l hl
+        have hne : cum ≠ [] := by
+          intro e; subst e; simp at hl
+        have hpos : 0 < cum.length := List.length_pos_iff.mpr hne
+        split at h
+        · rename_i j hj
+          cases h
+          have := firstEq_lt l cum 0 i hj
+          omega
+        · cases h; exact hpos
+      · cases h
     · cases h
 
 example : expSelect [(1 : Int), 3, 6] 2 false = .ok 1 := by decide
+
+/-- the fallback never returns a trailing candidate of probability 0: cumulative [1, 3, 6, 6], uniform 6 ↦ index 2 -/
+example : expSelect [(1 : Int), 3, 6, 6] 6 true = .ok 2 := by decide
 
 end order
 
